@@ -8,6 +8,7 @@ RUN on the real interpreter and compared (full PRINT trace including ERR/ERL as
 printed by the handler, final message code and line) with models/minibasic.py,
 which keeps a statement pointer for RESUME / RESUME NEXT.
 """
+import re
 from mc.core import Leg, Partial, CheckError, chunked
 from mc import harness as H
 from mc.progrun import Runner, judge
@@ -69,7 +70,7 @@ SOURCE_ORDER = ['ERROR5', 'ERROR255', 'ERROR73', 'DIV0', 'OVERFLOW', 'TYPE', 'NE
 
 POSITIONS = ['alone', 'first', 'middle', 'last', 'then', 'else']
 CONTEXTS = ['main', 'gosub1', 'gosub2', 'for', 'forline', 'while', 'direct']
-HANDLERS = ['next', 'retry', 'retry0', 'line', 'err', 'fault', 'off', 'end', 'fall', 'multi', 'gosub',
+HANDLERS = ['next', 'barenext', 'retry', 'retry0', 'line', 'err', 'fault', 'off', 'end', 'fall', 'multi', 'gosub',
             'if', 'rearm']
 TRAPS = ['armed', 'none', 'disarmed']
 
@@ -95,6 +96,9 @@ def handler_lines(h, direct):
     pe = [('printerrno',)] if direct else [('printerr',)]
     if h == 'next':
         return [(1000, pe + [('resume', 'next')])]
+    if h == 'barenext':
+        # a handler that evaluates nothing at all
+        return [(1000, [('resume', 'next')])]
     if h in ('retry', 'retry0'):
         return [(1000, pe + [('let', 'C', ('+', ('v', 'C'), ('c', 1))), ('let', 'D', ('c', 1)),
                              ('if', ('rel', '<', ('v', 'C'), ('c', 2)), None),
@@ -415,7 +419,98 @@ def work_codes(shard):
     return part
 
 
+# ---------------------------------------------------------------------------
+# STOP followed by CONT is transparent, also right after a trapped error
+
+SC_CONTEXTS = ['main', 'gosub1', 'for']
+SC_HANDLERS = ['next', 'barenext', 'retry', 'retry0', 'line', 'multi', 'gosub', 'if', 'rearm']
+BREAK_RE = re.compile(br'Break in \d+')
+
+
+def stopcont_cases():
+    out = []
+    for source in SOURCE_ORDER:
+        for pos in POSITIONS:
+            for ctx in SC_CONTEXTS:
+                for h in SC_HANDLERS:
+                    if valid(source, pos, ctx, h, 'armed'):
+                        out.append((source, pos, ctx, h))
+    return out
+
+
+def _sc_run(s, text, stop_line, cont):
+    """Enter and RUN the program (CONT after every Break if asked).  -> (output without Break messages, last error, breaks)"""
+    r = H.run(s, b'LOCATE 1,1:ON ERROR GOTO 0:NEW')
+    if r.exc is not None or r.err is not None:
+        return None
+    for l in text:
+        r = H.run(s, l)
+        if r.exc is not None or r.out.strip():
+            raise CheckError('line not accepted: %r -> %r' % (l, r))
+    H.run(s, stop_line)
+    out = b''
+    breaks = 0
+    cmd = b'RUN'
+    for _ in range(12):
+        r = H.run(s, cmd)
+        if r.exc is not None:
+            return ('exc', repr(r.exc), breaks)
+        stopped = BREAK_RE.search(r.out) is not None
+        # (STOP starts a new line for its message: line ends are not compared)
+        out += BREAK_RE.sub(b'', r.out).replace(b'\r', b'').replace(b'\n', b'').replace(b'\xff', b'')
+        if not (cont and stopped):
+            return (out, r.err, breaks)
+        breaks += 1
+        cmd = b'CONT'
+    return (out, 'too-many-breaks', breaks)
+
+
+def work_stopcont(shard):
+    part = Partial()
+    s = H.new_session(horizon=4000)
+    c = None
+    for source, pos, ctx, h in shard:
+        lines, direct = build(source, pos, ctx, h, 'armed', None)
+        text = MB.program_text(lines)
+        # the statement after the failing line: 145 (main), 345 (subroutine), 135 (loop body)
+        n = {'main': 145, 'gosub1': 345, 'for': 135}[ctx]
+        case = {'case': [source, pos, ctx, h], 'program': [t.decode('latin-1') for t in text], 'stop': n}
+        results = []
+        for stop_line, cont in ((b'%d PRINT "#";' % n, False), (b'%d STOP' % n, True)):
+            res = _sc_run(s, text, stop_line, cont)
+            if res is None:
+                s.close()
+                s = H.new_session(horizon=4000)
+                res = _sc_run(s, text, stop_line, cont)
+            results.append(res)
+        part.n += 1
+        part.traces += 1
+        ref, got = results
+        if got[0] == 'exc':
+            part.violation('stop-cont/host-exception', 'with %d STOP: %s' % (n, got[1]), case)
+        elif ref[0] == 'exc':
+            pass        # (the product leg reports it)
+        elif (got[0], got[1]) != (ref[0].replace(b'#', b''), ref[1]) or got[2] != ref[0].count(b'#'):
+            part.violation('stop-cont/%s/%s/differs-from-uninterrupted' % (source, h),
+                           'with %d PRINT "#"; the program prints %r (error %r); with %d STOP and CONT after every Break (%d) it prints %r (error %r)' % (
+                               n, ref[0][-60:], ref[1], n, got[2], got[0][-60:], got[1]), case)
+        part.classes.add('stop-cont/%s/%s/breaks%d' % (ctx, h, min(got[2], 3) if got[0] != 'exc' else -1))
+        c = case
+    s.close()
+    if c:
+        part.sample(c)
+    return part
+
+
 def legs(ctx):
+    return _legs_model(ctx) + [
+        Leg('stop-cont', list(chunked(stopcont_cases(), 60)), work_stopcont, exhaustive=True,
+            bound='%d programs (all sources x positions x 3 contexts x 9 resuming handlers, trap armed) with a STOP right after the '
+                  'failing line, continued with CONT after every Break: output and final error equal those of the same program '
+                  'with a marker PRINT in place of STOP, and there are as many Breaks as markers' % len(stopcont_cases()))]
+
+
+def _legs_model(ctx):
     main = cases_main()
     pairs = cases_pairs(ctx.quick)
     out = [
@@ -438,6 +533,8 @@ def legs(ctx):
 def replay(ctx, leg, case):
     part = Partial()
     runner = Runner()
+    if leg == 'stop-cont':
+        return work_stopcont([tuple(case['case'])])
     if leg in ('product', 'pairs'):
         run_case(part, runner, tuple(case['case']), leg)
     else:
